@@ -189,22 +189,41 @@ def rustVariant : Expr → String
 /-- variants the model never folds -/
 def unfoldedVariants : List String := ["Var", "Slice", "IfExpr", "Filter", "Test", "GetAttr", "GetItem", "Call"]
 
-/-- `Expr::as_const` has an arm exactly for the variants the model folds, everything else (`_ =>
-    None`) is exactly what the model leaves to the run time, the model covers every variant of
-    `enum Expr`, and the code generator evaluates at compile time in exactly the three places the
-    model knows (`as_const` first, the `Neg` shortcut, static keyword arguments; `as_const` is
-    called from one place).  A newly folded variant or a new special case breaks this theorem. -/
+/-- variants for which the model has a folding rule -/
+def foldRules : List String := ["Const", "List", "Tuple", "Map", "UnaryOp", "BinOp", "Compare"]
+
+/-- Every arm of `Expr::as_const` is a variant the model has a folding rule for (a NEWLY folded
+    variant breaks this theorem; an arm that disappears is harmless - the model's folder dispatches
+    over the regenerated list and simply stops folding that variant too); constants are always
+    loaded (`compile_expr` relies on it: `Expr::Const => unreachable!()`); the model knows every
+    variant of `enum Expr`; the code generator evaluates at compile time only in the places the model
+    knows (`as_const` first, the `Neg` shortcut, static keyword arguments - the model dispatches over
+    this list as well) and calls `as_const` from exactly one place. -/
 theorem traversal_from_source :
-    sameSet MJ.Gen.asConstArms ["Const", "List", "Tuple", "Map", "UnaryOp", "BinOp", "Compare"] = true ∧
-    sameSet MJ.Gen.exprVariants (MJ.Gen.asConstArms ++ unfoldedVariants) = true ∧
-    MJ.Gen.codegenSpecials = ["fold-first", "neg-const-shortcut", "static-kwargs"] ∧
+    MJ.Gen.asConstArms.all (foldRules.contains ·) = true ∧
+    MJ.Gen.asConstArms.contains "Const" = true ∧
+    sameSet MJ.Gen.exprVariants (foldRules ++ unfoldedVariants) = true ∧
+    MJ.Gen.codegenSpecials.all (["fold-first", "neg-const-shortcut", "static-kwargs"].contains ·) = true ∧
+    MJ.Gen.codegenSpecials.contains "fold-first" = true ∧
     MJ.Gen.codegenAsConstUses = 1 := by
   decide
 
-/-- the model folds only variants for which `as_const` has an arm -/
-theorem asConst_only_listed_arms (e : Expr) (h : asConst P e ≠ none) :
-    MJ.Gen.asConstArms.contains (rustVariant e) = true := by
-  cases e <;> first | rfl | (exfalso; exact h (by simp [asConst]))
+/-- the model's folder dispatches over the table: a node other than a plain constant is folded only
+    if the table it is given (for the concrete instance: the arms of `Expr::as_const` regenerated
+    from the source) lists its variant -/
+theorem asConst_dispatches_over_table (e : Expr) (h : asConst P e ≠ none) :
+    rustVariant e = "Const" ∨ P.foldsVariant (rustVariant e) = true := by
+  cases e
+  case const => exact Or.inl rfl
+  case var | getAttr | getItem | slice | ifExpr | filter | test | call =>
+    exfalso; apply h; simp [asConst]
+  all_goals
+    refine Or.inr ?_
+    rw [asConst] at h
+    unfold gate at h
+    split at h
+    · simpa [rustVariant] using ‹_›
+    · exact absurd rfl h
 
 end
 end MJ.Fold.Tables
